@@ -71,7 +71,6 @@ class Pair:
 
 def check_case(case, ctx):
     import stream_harness as sh
-    from mitmproxy.proxy import commands, events
     from mitmproxy.proxy.layers.quic import _commands as qc
     from mitmproxy.proxy.layers.quic import _events as qe
     from mitmproxy.proxy.layers.quic._raw_layers import RawQuicLayer
